@@ -112,3 +112,170 @@ Proof.
   - apply perm_skip. etransitivity; [|exact G1]. apply Permutation_flat_map. exact P.
   - etransitivity; [|exact G2]. apply Permutation_flat_map. exact P.
 Qed.
+
+(** * the recursion on the heap *)
+Definition sort_spec (lt : ltree) : Prop := forall fuel prev h,
+  shape true h prev lt -> NoDup (lids lt) -> (forall p pe, prev = Some (p, pe) -> ~ In p (lids lt)) -> lheight lt <= fuel ->
+  exists h', sort_neighbors_heap fuel (lid lt) (option_map fst prev) h = HOk (h', snd (lsort lt)) /\ same_but_nodes h h' /\
+    (forall y, ~ In y (lids lt) -> alookup y (hnodes h') = alookup y (hnodes h)) /\
+    (forall y, alookup y (hnodes h') <> None <-> alookup y (hnodes h) <> None) /\
+    shape true h' prev (fst (lsort lt)).
+
+Lemma sort_neighbors_heap_S f cur prev h :
+  sort_neighbors_heap (S f) cur prev h =
+  do hn <- get_node h cur;
+  if Nat.ltb (length (hbr hn)) (length (hneigh hn)) then HPanic
+  else
+    do p <- sort_loop (fun c h => sort_neighbors_heap f c (Some cur) h) prev (hneigh hn) h;
+    let sorted := stable_sort_by (fun x : nat * (nat * nat) => fst x) (combine (snd p) (combine (hneigh hn) (hbr hn))) in
+    do hc <- get_node (fst p) cur;
+    HOk (set_node (fst p) cur (mkHN (hname hc) (hcom hc) (map (fun x => fst (snd x)) sorted) (map (fun x => snd (snd x)) sorted)),
+         if Nat.eqb (length (hneigh hn)) 1 then 1 else fold_right Nat.add 0 (snd p)).
+Proof. reflexivity. Qed.
+
+Lemma sort_loop_ok f i prev : forall slr l h,
+  Forall2 (slot_ok true h prev i) l slr ->
+  (forall e ei ch, In (Some (e, ei, ch)) slr -> sort_spec ch /\ lheight ch <= f /\ ~ In i (lids ch)) ->
+  NoDup (sids slr) -> (forall p pe, prev = Some (p, pe) -> ~ In p (sids slr)) ->
+  exists h', sort_loop (fun c h => sort_neighbors_heap f c (Some i) h) (option_map fst prev) (map fst l) h
+             = HOk (h', map snd (map (lsort_keyed lsort) slr)) /\ same_but_nodes h h' /\
+     (forall y, ~ In y (sids slr) -> alookup y (hnodes h') = alookup y (hnodes h)) /\
+     (forall y, alookup y (hnodes h') <> None <-> alookup y (hnodes h) <> None) /\
+     Forall2 (slot_ok true h' prev i) l (map fst (map (lsort_keyed lsort) slr)).
+Proof.
+  induction slr as [|s slr IH]; intros l h F Hk Nd Hp.
+  - inversion F. subst. exists h. cbn [map sort_loop]. split; [reflexivity|]. split; [repeat split|]. split; [reflexivity|]. split; [reflexivity|constructor].
+  - apply Forall2_cons_inv_r in F. destruct F as (ce & l' & -> & Hs & F). cbn [map sort_loop].
+    destruct s as [[[e ei] ch]|].
+    + cbn [slot_ok] in Hs. destruct Hs as (B1 & B2 & B3 & B4 & B5).
+      cbn [sids flat_map] in Nd, Hp. fold (sids slr) in Nd, Hp. apply NoDup_app_iff in Nd. destruct Nd as (N1 & N2 & N3).
+      assert (opt_nat_eqb (Some (fst ce)) (option_map fst prev) = false) as ->.
+      { destruct prev as [[p pe]|]; [|reflexivity]. cbn. apply Nat.eqb_neq. intros E.
+        apply (Hp p pe eq_refl). apply in_or_app. left. rewrite <- E, <- B3. apply lid_in_lids. }
+      destruct (Hk e ei ch (or_introl eq_refl)) as (Sp & Hh & Hi).
+      destruct (Sp f (Some (i, snd ce)) h B5 N1) as (h1 & E1 & (S1 & S2 & S3 & S4) & Fr1 & Dm1 & Sh1).
+      { intros p pe [= <- <-]. exact Hi. } { exact Hh. }
+      cbn [option_map fst] in E1. rewrite B3 in E1. rewrite E1. cbn [hbind fst snd].
+      assert (F1 : Forall2 (slot_ok true h1 prev i) l' slr).
+      { eapply (slots_frame true h h1); [exact S1| |exact F]. intros y Hy. apply Fr1. intros Hy'. exact (N3 y Hy' Hy). }
+      destruct (IH l' h1 F1 (fun e0 ei0 ch0 H0 => Hk e0 ei0 ch0 (or_intror H0)) N2) as (h2 & E2 & (T1 & T2 & T3 & T4) & Fr2 & Dm2 & F2).
+      { intros p pe E Hy. apply (Hp p pe E). apply in_or_app. right. exact Hy. }
+      rewrite E2. cbn [hbind fst snd lsort_keyed].
+      destruct (lsort ch) as [ch' k] eqn:Ech. cbn [fst snd] in *.
+      exists h2. split; [reflexivity|]. split; [repeat split; congruence|]. split; [|split].
+      * intros y Hy. cbn [sids flat_map] in Hy. rewrite Fr2, Fr1; [reflexivity| |]; intros Hy'; apply Hy; apply in_or_app; [left|right]; exact Hy'.
+      * intros y. rewrite Dm2. apply Dm1.
+      * constructor; [|exact F2]. cbn [slot_ok].
+        pose proof (lid_lsort ch) as El. rewrite Ech in El. cbn [fst] in El.
+        repeat split; try assumption; [congruence| |].
+        -- eapply edge_ok_eq; [|eapply edge_ok_eq; [|exact B4]]; [rewrite T1|rewrite S1]; reflexivity.
+        -- eapply shape_frame; [| |exact Sh1].
+           ++ intros y Hy. apply Fr2. intros Hy'. apply (N3 y); [|exact Hy'].
+              destruct (lsort_perm ch) as [P _]. rewrite Ech in P. cbn [fst] in P. eapply Permutation_in; [exact P|exact Hy].
+           ++ intros y _. rewrite T1. reflexivity.
+    + cbn [slot_ok] in Hs. cbn [sids flat_map app] in Nd, Hp. fold (sids slr) in Nd, Hp.
+      assert (opt_nat_eqb (Some (fst ce)) (option_map fst prev) = true) as ->.
+      { rewrite Hs. cbn. apply Nat.eqb_refl. }
+      destruct (IH l' h F (fun e0 ei0 ch0 H0 => Hk e0 ei0 ch0 (or_intror H0)) Nd Hp) as (h2 & E2 & T & Fr2 & Dm2 & F2).
+      rewrite E2. cbn [hbind fst snd lsort_keyed].
+      exists h2. split; [reflexivity|]. split; [exact T|]. split; [exact Fr2|]. split; [exact Dm2|].
+      constructor; [exact Hs|exact F2].
+Qed.
+
+Lemma combine_map_snd {A B C} (l : list (A * (B * C))) :
+  combine (map (fun x => fst (snd x)) l) (map (fun x => snd (snd x)) l) = map snd l.
+Proof. induction l as [|[a [b c]] l IH]; [reflexivity|]. cbn. f_equal. exact IH. Qed.
+
+Lemma fold_add_map {A} (g : A -> nat) l : fold_right Nat.add 0 (map g l) = fold_right (fun p acc => g p + acc) 0 l.
+Proof. induction l as [|x l IH]; [reflexivity|]. cbn. rewrite IH. reflexivity. Qed.
+
+Lemma Forall2_keyed {A B} (P : A -> B -> Prop) : forall (ces : list A) (keyed : list (B * nat)),
+  Forall2 P ces (map fst keyed) ->
+  Forall2 (fun (x : nat * A) (y : B * nat) => fst x = snd y /\ P (snd x) (fst y)) (combine (map snd keyed) ces) keyed.
+Proof.
+  intros ces keyed. revert ces. induction keyed as [|[s k] keyed IH]; intros ces F; inversion F; subst; [constructor|].
+  cbn [map combine snd]. constructor; [split; [reflexivity|assumption]|apply IH; assumption].
+Qed.
+
+Lemma Forall2_unkeyed {A B} (P : A -> B -> Prop) (a : list (nat * A)) (b : list (B * nat)) :
+  Forall2 (fun x y => fst x = snd y /\ P (snd x) (fst y)) a b -> Forall2 P (map snd a) (map fst b).
+Proof. induction 1 as [|x y a b [_ H] F IH]; [constructor|]. cbn [map]. constructor; assumption. Qed.
+
+Theorem sort_spec_all : forall lt, sort_spec lt.
+Proof.
+  induction lt as [i n c sl IH] using ltree_ind'. intros fuel prev h Sh Nd Hp Hf.
+  destruct fuel as [|f]; [cbn in Hf; lia|]. cbn [lid]. rewrite sort_neighbors_heap_S.
+  apply shape_unfold in Sh. destruct Sh as [hn (A1 & A2 & A3 & A4 & A5)].
+  pose proof (Forall2_length' _ _ _ A5) as L5. rewrite combine_length, <- A4, Nat.min_id in L5.
+  rewrite lids_eq in Nd, Hp |- *. fold (sids sl) in Nd, Hp |- *. apply NoDup_cons_iff in Nd. destruct Nd as [Ni Nd].
+  unfold get_node at 1. rewrite A1. cbn [hbind].
+  destruct (Nat.ltb_spec (length (hbr hn)) (length (hneigh hn))) as [Hlt|_]; [lia|].
+  rewrite Forall_forall in IH.
+  destruct (sort_loop_ok f i prev sl (combine (hneigh hn) (hbr hn)) h A5) as (h1 & E & (S1 & S2 & S3 & S4) & Fr & Dm & F').
+  { intros e ei ch Hs. split; [exact (IH _ Hs)|]. split; [pose proof (lheight_child i n c sl _ _ _ Hs); lia|].
+    intros Hi. apply Ni. eapply in_sids; eassumption. }
+  { exact Nd. }
+  { intros p pe E Hy. apply (Hp p pe E). right. exact Hy. }
+  change (map fst (combine (hneigh hn) (hbr hn))) with (map fst (slots_of hn)) in E. rewrite (slots_of_fst hn A4) in E.
+  rewrite E. cbn [hbind fst snd].
+  assert (Hi1 : alookup i (hnodes h1) = Some hn) by (rewrite (Fr i Ni); exact A1).
+  unfold get_node. rewrite Hi1. cbn [hbind]. rewrite lsort_eq. cbv zeta. cbn [fst snd].
+  set (keyed := map (lsort_keyed lsort) sl) in *.
+  set (sorted := stable_sort_by (fun x : nat * (nat * nat) => fst x) (combine (map snd keyed) (combine (hneigh hn) (hbr hn)))).
+  set (hn' := mkHN (hname hn) (hcom hn) (map (fun x => fst (snd x)) sorted) (map (fun x => snd (snd x)) sorted)).
+  set (h2 := set_node h1 i hn').
+  assert (Hi2 : forall y, y <> i -> alookup y (hnodes h2) = alookup y (hnodes h1)).
+  { intros y Hy. unfold h2. cbn [set_node hnodes]. apply alookup_aupd_ne. exact Hy. }
+  exists h2. split.
+  { f_equal. f_equal. rewrite L5. destruct (Nat.eqb (length sl) 1); [reflexivity|]. apply fold_add_map. }
+  split; [repeat split; assumption|]. split; [|split].
+  - intros y Hy. rewrite Hi2 by (intros ->; apply Hy; left; reflexivity). apply Fr. intros Hy'. apply Hy. right. exact Hy'.
+  - intros y. unfold h2. cbn [set_node hnodes]. rewrite alookup_aupd.
+    destruct (Nat.eqb_spec y i) as [->|_]; [|apply Dm]. rewrite A1. split; discriminate.
+  - apply shape_unfold. exists hn'. split; [|split; [exact A2|split; [exact A3|split]]].
+    + unfold h2. cbn [set_node hnodes]. rewrite alookup_aupd, Nat.eqb_refl. reflexivity.
+    + unfold hn'. cbn [hneigh hbr]. rewrite !map_length. reflexivity.
+    + unfold hn'. cbn [hneigh hbr]. rewrite combine_map_snd.
+      assert (F2 : Forall2 (slot_ok true h2 prev i) (combine (hneigh hn) (hbr hn)) (map fst keyed)).
+      { apply (slots_frame true h1 h2 prev i _ _ eq_refl); [|exact F']. intros y Hy. apply Hi2. intros ->.
+        apply Ni. destruct (lsort_perm (LNode i n c sl)) as [_ _].
+        assert (Pm : Permutation (sids (map fst keyed)) (sids sl)).
+        { clear - sl. unfold keyed. induction sl as [|s sl IHsl]; [constructor|]. cbn [map]. destruct s as [[[e ei] ch]|]; cbn [lsort_keyed].
+          - destruct (lsort_perm ch) as [P _]. destruct (lsort ch) as [ch' k]. cbn [fst] in *. cbn [sids flat_map]. apply Permutation_app; assumption.
+          - exact IHsl. }
+        eapply Permutation_in; [exact Pm|exact Hy]. }
+      apply Forall2_keyed in F2. unfold sorted.
+      apply (Forall2_unkeyed (slot_ok true h2 prev i)).
+      apply (Forall2_stable_sort _ (fun x : nat * (nat * nat) => fst x) (fun p : lslot * nat => snd p)); [|exact F2].
+      intros u v [Huv _]. exact Huv.
+Qed.
+
+(** * the square *)
+Theorem sort_neighbors_Rep h lt : Rep h lt ->
+  exists h', sort_neighbors_by_tips_heap h = HOk h' /\ Rep h' (fst (lsort lt)).
+Proof.
+  intros R. unfold sort_neighbors_by_tips_heap. rewrite (rep_root _ _ R).
+  destruct (sort_spec_all lt (hfuel h) None h (rep_shape _ _ R) (rep_nd _ _ R)) as (h' & E & (S1 & S2 & S3 & S4) & Fr & Dm & Sh).
+  { intros p pe [=]. } { unfold hfuel. pose proof (Rep_fuel _ _ R). lia. }
+  cbn [option_map] in E. rewrite E. cbn [hbind fst]. exists h'. split; [reflexivity|].
+  destruct (lsort_perm lt) as [P1 P2]. destruct (erase_lsort lt) as [Ee _].
+  constructor.
+  - rewrite S2, lid_lsort. exact (rep_root _ _ R).
+  - exact Sh.
+  - unfold lwf. rewrite Ee. eapply tperm_wf; [apply sort_neighbors_tperm|exact (rep_wf _ _ R)].
+  - eapply Permutation_NoDup; [symmetry; exact P1|exact (rep_nd _ _ R)].
+  - eapply Permutation_NoDup; [symmetry; exact P2|exact (rep_ned _ _ R)].
+  - intros y. rewrite Dm, <- (rep_nodes _ _ R y). split; intros Hy; (eapply Permutation_in; [|exact Hy]); [exact P1|symmetry; exact P1].
+  - intros y. rewrite S1, <- (rep_edges _ _ R y). split; intros Hy; (eapply Permutation_in; [|exact Hy]); [exact P2|symmetry; exact P2].
+  - intros y Hy. rewrite S3. apply (rep_fn _ _ R). eapply Permutation_in; [exact P1|exact Hy].
+  - intros y Hy. rewrite S4. apply (rep_fe _ _ R). eapply Permutation_in; [exact P2|exact Hy].
+Qed.
+
+Theorem sort_neighbors_square h t : Good h -> abs h = Some t ->
+  exists h', sort_neighbors_by_tips_heap h = HOk h' /\ Good h' /\ abs h' = Some (sort_by_tips t).
+Proof.
+  intros G Ha. destruct (Good_abs_Rep h t G Ha) as (lt & R & <-).
+  destruct (sort_neighbors_Rep h lt R) as (h' & E & R').
+  exists h'. split; [exact E|]. split; [exact (Rep_Good _ _ R')|]. rewrite (Rep_abs _ _ R'). f_equal.
+  exact (proj1 (erase_lsort lt)).
+Qed.
